@@ -1,6 +1,7 @@
 (* C02 -- Exact finite-sample double robustness of AIPTW and TMLE (AIPSW: see the generalize development). *)
 From Coq Require Import QArith List.
-From Zepid Require Import Base.QSum Base.QUtil Base.Rows Proofs.RowsProofs Model.Estimators Proofs.EstimatorsProofs.
+From Zepid Require Import Base.QSum Base.QUtil Base.Rows Proofs.RowsProofs Model.Estimators Proofs.EstimatorsProofs
+     Model.Generalize Proofs.GeneralizeProofs.
 Import ListNotations.
 Open Scope Q_scope.
 
@@ -27,13 +28,39 @@ Proof. exact tmle_gsat. Qed.
 (* TMLE, outcome model saturated: leaving the predictions untouched (epsilon = 0) solves the score equation for
    ANY clever-covariate denominator that is a function of the stratum, and the plug-in is the standardised mean *)
 Theorem C02_tmle_outcome_saturated : forall l, unit_weights l -> positivity l ->
-  forall a ps, sat_q l -> (forall r, In r l -> trt r = a -> pa a r == ps (st r)) ->
+  forall a ps, sat_q l -> (forall r, In r l -> trt r = a -> EstimatorsProofs.pa a r == ps (st r)) ->
   tmle_score a l == 0 /\ tmle_mean a l == std TAll a l.
 Proof. exact tmle_Qsat. Qed.
 (* misspecifying both sides does move the estimate *)
 Theorem C02_both_wrong_moves :
   exists l, positivity l /\ complete l /\ ~ aipw_mean aipw_y1 l == std TAll true l.
 Proof. exact aipw_both_wrong_moves. Qed.
+
+(* ---- AIPSW (generalize and transport: gen c selects the target population; gstd is the sample cell means
+   standardised over all rows resp. the non-sampled rows) *)
+(* outcome model saturated: the total weight of the sampled rows may be ANY function of the stratum, stabilised or not *)
+Theorem C02_aipsw_outcome_saturated : forall (l : list grow) (c : gcfg), gpositivity l ->
+  forall (a : bool) (kap : nat -> Q), sat_Q l ->
+  (forall r : grow, In r l -> smp r = true -> ga r = a -> tot_w c r == kap (gs r)) ->
+  aipsw_risk c a l == gstd (gen c) a l.
+Proof. exact aipsw_Qsat. Qed.
+(* sampling and treatment models saturated, UNSTABILISED weights: outcome predictions may be ANY function of stratum and arm *)
+Theorem C02_aipsw_weights_saturated_unstabilized : forall (l : list grow) (c : gcfg), gpositivity l ->
+  nonempty_tgt (gen c) l -> forall (a : bool) (th : nat -> bool -> Q),
+  stabS c = false -> rx c = true -> stabA c = false -> sat_S l -> sat_A l ->
+  (forall r : grow, In r l -> gq1 r == th (gs r) true /\ gq0 r == th (gs r) false) ->
+  aipsw_risk c a l == gstd (gen c) a l.
+Proof. exact aipsw_wsat. Qed.
+(* with STABILISED weights (the default) and a wrong outcome model AIPSW is NOT the standardised estimate: the property
+   as stated ("stabilized or unstabilized") is refuted for the faithful model -- recorded as a known finding *)
+Theorem C02_aipsw_stabilized_refuted :
+  exists l : list grow, gpositivity l /\ sat_S l /\ sat_A l /\
+    (forall r : grow, In r l -> gq1 r == 1 # 2 /\ gq0 r == 1 # 2) /\
+    (forall gn stab : bool, nS (wit_cfg gn stab) == marg_S l /\ nA (wit_cfg gn stab) == marg_A l) /\
+    (forall gn : bool, nonempty_tgt gn l) /\
+    (forall gn a : bool, aipsw_risk (wit_cfg gn false) a l == gstd gn a l) /\
+    (forall gn : bool, ~ aipsw_risk (wit_cfg gn true) true l == gstd gn true l).
+Proof. exact aipsw_stabilized_wsat_refuted. Qed.
 
 Example C02_nonvacuous :
   aipw_mean aipw_y1 witness_rows == 3 # 4 /\ std TAll true witness_rows == 5 # 6.
@@ -45,3 +72,6 @@ Print Assumptions C02_aipw_ya_is_translated.
 Print Assumptions C02_tmle_treatment_saturated.
 Print Assumptions C02_tmle_outcome_saturated.
 Print Assumptions C02_both_wrong_moves.
+Print Assumptions C02_aipsw_outcome_saturated.
+Print Assumptions C02_aipsw_weights_saturated_unstabilized.
+Print Assumptions C02_aipsw_stabilized_refuted.
